@@ -190,18 +190,9 @@ def serviceObjects (s : Service) : List (Str × List Property) :=
 /-- virtual message objects of a topic: name, prepends ++ declared fields (names resolved as in
 `acceptTopic`; messages without a resolvable name are dropped, the walk aborts there) -/
 def topicObjects (t : Topic) : List (Str × List Property) :=
-  let one (tn : Str) (single : Bool) (pre : List Property) (m : TopicMsg) :
-      List (Str × List Property) :=
-    match m.name with
-    | some n => [(n ++ b!"Message", pre ++ m.props)]
-    | none => if single then [(tn ++ b!"Message", pre ++ m.props)] else []
-  match t.type with
-  | .publish msgs => msgs.flatMap (one t.name (msgs.length = 1) [])
-  | .reqres reqs reps =>
-    reqs.flatMap (one (t.name ++ b!"Request") (reqs.length = 1) requestPrepend) ++
-    reps.flatMap (one (t.name ++ b!"Reply") (reps.length = 1) requestPrepend)
-  | .event _ msg => one t.name true [] msg
-  | .upsert _ msg => one t.name true upsertPrepend msg
+  (topicNodes t).flatMap fun tn =>
+    tn.msgs.filterMap fun m =>
+      (topicMethodName tn m).map fun n => (n ++ b!"Message", tn.prepend ++ m.props)
 
 def virtualExports (objs : List (Str × List Property)) : List (Str × TKind) :=
   objs.flatMap fun (n, ps) => (n, TKind.message false) :: exportsProps [n] ps
